@@ -483,7 +483,8 @@ static inline Error X86Internal_setup_save_restore_info(RegGroup group, const Fu
     case RegGroup::kMask:
       reg_out = k(0);
       inst_out = Inst::kIdKmovq;
-      size_out = reg_out->size();
+      // KReg has no size associated with its register type (`KReg::size()` is zero), KMOVQ moves 8 bytes.
+      size_out = 8u;
       return Error::kOk;
 
     case RegGroup::kX86_MM:
